@@ -14,6 +14,8 @@ SPEC = {
             'name': 'call', 'shims': ['async-process'],
             'harness_files': {HK: 'harness/hooks.rs'},
             'harnesses': [
+                {'name': 'c10_call_one_listed', 'file': HK, 'tiers': ['dbg'], 'timeout': 1200, 'unwindset': {r'hooks::call': 2, 'simd_bitmask': 17, 'swap_nonoverlapping': 8, 'memcmp': 2}},
+                {'name': 'c10_call_one_not_listed', 'file': HK, 'tiers': ['dbg'], 'timeout': 1200, 'unwindset': {r'hooks::call': 2, 'simd_bitmask': 17, 'swap_nonoverlapping': 8, 'memcmp': 2}},
                 {'name': 'c10_call_order_111', 'file': HK, 'timeout': 2400, 'unwindset': UW, 'bounds': B + ' (all three listed)', 'asserts': A},
                 {'name': 'c10_call_order_101', 'file': HK, 'timeout': 2400, 'unwindset': UW, 'bounds': B + ' (a and c listed)', 'asserts': A},
                 {'name': 'c10_call_order_011', 'file': HK, 'timeout': 2400, 'unwindset': UW, 'bounds': B + ' (b and c listed)', 'asserts': A},
